@@ -105,7 +105,7 @@ def _env():
 
 
 def run_harnesses(scratch, harnesses, jobs=12, harness_timeout=900, extra=None, wall_timeout=None):
-    cmd = ['cargo', 'kani', '-Z', 'unstable-options', '--harness-timeout', '%ds' % harness_timeout,
+    cmd = ['cargo', 'kani', '-Z', 'unstable-options', '-Z', 'stubbing', '--harness-timeout', '%ds' % harness_timeout,
            '--output-format', 'terse', '-j', str(max(1, min(jobs, len(harnesses)))), '--exact']
     for h in harnesses:
         cmd += ['--harness', h]
@@ -190,7 +190,7 @@ def parse_results(out, harnesses):
 
 def concrete_values(scratch, harness, harness_timeout=900):
     """Re-run one failed harness with concrete playback; return list of byte lists (in order of any() calls)."""
-    cmd = ['cargo', 'kani', '-Z', 'unstable-options', '--harness-timeout', '%ds' % harness_timeout, '--exact', '--harness', harness,
+    cmd = ['cargo', 'kani', '-Z', 'unstable-options', '-Z', 'stubbing', '--harness-timeout', '%ds' % harness_timeout, '--exact', '--harness', harness,
            '-Z', 'concrete-playback', '--concrete-playback=print', '--output-format', 'terse']
     p = subprocess.Popen(cmd, cwd=scratch, env=_env(), stdout=subprocess.PIPE, stderr=subprocess.STDOUT, text=True)
     wd = _Watchdog(p.pid)
